@@ -55,7 +55,7 @@ FORBIDDEN = re.compile(
 
 GLOBAL_TRUSTED = [
     "Lean 4.33 kernel + Mathlib v4.33; axioms allowed: propext, Classical.choice, Quot.sound (audited by #print axioms on every run)",
-    "hand-written Lean model tied to /repo by the behavioural correspondence check run here (generator quality bounds what it sees) and, for C02 / C03 / C04 / C05 / C06 / C07 / C08 / C09 / C12 / C13 / C15 / C17 / C20, additionally by tables / definitions re-generated from the source on every run and proved equal to the model (the translators are trusted, see the property's own entries)",
+    "hand-written Lean model tied to /repo by the behavioural correspondence check run here (generator quality bounds what it sees) and, for C02 / C03 / C04 / C05 / C06 / C07 / C08 / C09 / C11 / C12 / C13 / C15 / C17 / C20, additionally by tables / definitions re-generated from the source on every run and proved equal to the model (the translators are trusted, see the property's own entries)",
     "Float-vs-real: theorems over exact rings/reals; implementation rounding not modelled except at int() truncations",
     "PyTorch (autograd, torch.normal/rand as ideal samplers, nn reference layers, DDP collectives), NumPy, SciPy special functions",
 ]
